@@ -329,6 +329,9 @@ func (f frame) crosses(lat1, lon1, lat2, lon2 float64) tri {
 	if f.hav {
 		return no // never decisive: such fences detect neither cross nor outside
 	}
+	if lat1 == lat2 && lon1 == lon2 {
+		return no // a stationary object (both ends are outside with the point margin): no path
+	}
 	u1, v1 := f.norm(lat1, lon1)
 	u2, v2 := f.norm(lat2, lon2)
 	_, _, lo, hi := f.margins()
